@@ -18,7 +18,11 @@ Base == ndJsonDeserialize(BaseFile)
 VARIABLE c
 W16(b, i) == b[i] * 256 + b[i + 1]
 B8(x) == {0, 1, 2, 3, 4, 7, 8, 15, 16, 127, 128, 254, 255, (x + 1) % 256, (x + 255) % 256}
-B16(n, x) == {0, 1, 3, 4, 7, 8, 9, 15, 16, n - 1, n, n + 1, n + 8, 255, 256, 32767, 32768, 65534, 65535, (x + 1) % 65536, (x + 65535) % 65536, (x + 8) % 65536} \cap (0..65535)
+\* length-like boundary values: tiny, header-sized (multiples of 4 and 8 up to 64, +-1), relative to the frame length, sign / wrap-around
+\* boundaries of 16-bit arithmetic (2^16 - k wraps to a small number when a small constant is added or when rounded up to 8)
+B16(n, x) == ({0, 1, 3, 4, 7, 8, 9, 12, 15, 16, 20, 23, 24, 25, 28, 31, 32, 33, 40, 48, 56, 60, 63, 64, 65, n - 1, n, n + 1, n + 8, 255, 256, 32767, 32768,
+               (x + 1) % 65536, (x + 65535) % 65536, (x + 8) % 65536}
+              \cup {65536 - k : k \in {1, 2, 4, 7, 8, 9, 15, 16, 24, 32, 40, 48, 56, 64}}) \cap (0..65535)
 SetToSeq(S) == LET RECURSIVE F(_) F(T) == IF T = {} THEN <<>> ELSE LET x == CHOOSE y \in T : \A z \in T : y <= z IN <<x>> \o F(T \ {x}) IN F(S)
 RECURSIVE Cat(_)
 Cat(ss) == IF ss = <<>> THEN <<>> ELSE Head(ss) \o Cat(Tail(ss))
